@@ -1,2 +1,3 @@
 import TextwrapModel.Gen.TablesUnicode
 import TextwrapModel.Gen.TablesCrude
+import TextwrapModel.Gen.TablesLinebreak
